@@ -515,6 +515,11 @@ class ExprMixin:
     def getattr(self, v, attr, st, node=None):
         if isinstance(v, OptV) and attr == "size":
             v = self.unopt(v, st, node)
+        if isinstance(v, Sym) and v.ty == ("ref", "Obj") and attr == "shape":
+            from .core import uf, Ref as _Ref, I as _I
+            return [((Sym(uf("NP_ROWS", _Ref, _I)(v.t), "int"), Sym(uf("NP_COLS", _Ref, _I)(v.t), "int")), st)]
+        if isinstance(v, Sym) and v.ty == ("ref", "Obj") and attr == "as_array":
+            return [(BoundMethod(v, "<builtin>", "as_array"), st)]
         if attr == "size" and (isinstance(v, (int, float)) or (isinstance(v, Sym) and v.ty in ("int", "real"))):
             return [(1, st)]
         if attr == "size" and isinstance(v, SeqV):
@@ -625,6 +630,12 @@ class ExprMixin:
                 sv = self.as_seq(v, st)
                 return [(SeqV(sv.n, sv.arr, sv.ety, not sv.rev), st)]
             raise OutOfSubset("general slice value", node)
+        if isinstance(v, Sym) and v.ty == ("ref", "Obj") and isinstance(k, tuple) and len(k) == 2 and isinstance(k[0], SliceV) \
+                and (k[0].lo, k[0].hi, k[0].step) == (None, None, None):
+            # numpy 2-d array: arr[:, i] is column i (A-NUMPY)
+            from .core import uf, Ref as _Ref, I as _I
+            it, _ = znum(k[1])
+            return [(Sym(uf("NP_COL", _Ref, _I, _Ref)(v.t, it), ("ref", "Obj")), st)]
         if isinstance(v, Sym) and is_ref_ty(v.ty):
             return self.call_method(v, v.ty[1], "__getitem__", [k], {}, st, node)
         if isinstance(v, (ListLoc, SeqV)):
@@ -666,6 +677,21 @@ class ExprMixin:
     def wrap_elem(self, sv, j):
         idx = (sv.n - 1 - j) if sv.rev else j
         return Sym(z3.Select(sv.arr, idx), sv.ety)
+
+    def ev_Slice(self, e, st):
+        parts = [e.lower, e.upper, e.step]
+        vals = []
+        cur = st
+        for p_ in parts:
+            if p_ is None:
+                vals.append(None)
+            else:
+                r = self.eval(p_, cur)
+                if len(r) != 1 or isinstance(r[0][0], Exc):
+                    raise OutOfSubset("branching slice bound", e)
+                vals.append(r[0][0])
+                cur = r[0][1]
+        return [(SliceV(*vals), cur)]
 
     def ev_Starred(self, e, st):
         raise OutOfSubset("starred", e)
@@ -720,6 +746,11 @@ class ExprMixin:
         g = e.generators[0]
 
         def f(it, s):
+            from .stmt import IterV
+            if isinstance(it, IterV):
+                dom = it.domain(self, s)
+                if dom[0] == "concrete":
+                    it = PyList(list(dom[1]))
             if isinstance(it, (PyList, tuple)):
                 items = it.items if isinstance(it, PyList) else list(it)
                 results = [([], s)]
